@@ -340,6 +340,9 @@ def r07_10(ctx):
 
 def run(ctx):
     r07_10(ctx)
+    # join() must not wait for the time-limit scanner, which by design runs on until terminate()
+    from .c05 import r05_7
+    r05_7(ctx, 'R07.11')
     # the worker that ran a job is recorded as its owner on every accepting path: the consumed-result credit is
     # keyed by it (a missing owner = a worker that waits out its 30 s guard at shutdown)
     from .c03 import r03_5
@@ -365,6 +368,8 @@ def run(ctx):
 
 _P = 'billiard/pool.py'
 MUTANTS = [
+    ('join-waits-for-the-scanner', _P, "        debug('result handler joined')\n        for i, p in enumerate(self._pool):\n",
+     "        debug('result handler joined')\n        if self._timeout_handler is not None:\n            stop_if_not_current(self._timeout_handler, TIMEOUT_MAX)\n        for i, p in enumerate(self._pool):\n", 'R07.11'),
     ('close-flags-the-feeder', _P, "            self._worker_handler.close()\n            self._taskqueue.put(None)\n",
      "            self._worker_handler.close()\n            self._task_handler.close()\n            self._taskqueue.put(None)\n", 'R07.10'),
     ('close-flags-the-result-handler', _P, "            self._worker_handler.close()\n            self._taskqueue.put(None)\n",
